@@ -4,7 +4,7 @@
 set -u
 cd /verif
 fail=0
-for d in seeded/*/; do
+for d in seeded/*/; do  # (C11-D was reclassified and lives in preserving/C11-PD)
   id=$(basename $d)
   out=$(tools/run_seeded.sh $d 2>&1)
   if echo "$out" | grep -q "exit=1" && echo "$out" | grep -q "replay: VIOLATION"; then
